@@ -103,6 +103,7 @@ namespace net
     ZRef z;
     std::vector<smt::var> blist;     // known Bool variables (index 0 = FALSE_var), registration order
     std::vector<smt::var> tlist;     // the fresh variables that creation calls returned, creation order
+    std::map<smt::var, std::vector<std::pair<bool, FP>>> card_meanings; // cardinality constraints each literal was returned for
     std::set<smt::var> bknown;
     std::map<smt::var, FP> lra_atoms;       // LRA literal -> atom
     std::map<smt::var, DLEdge> dl_edges;    // DL literal -> edge (to - from <= dist)
